@@ -6,6 +6,7 @@ CONSTANTS
   GlobClasses <- HistClasses
   MinReq = 2
   MaxReq = 2
+  AllowAlias = FALSE
   Emit = TRUE
 INVARIANTS Confined NeverHostile DistinctTargets ExactMatchesItself EmitScn
 CHECK_DEADLOCK FALSE
